@@ -60,13 +60,17 @@ theorem step_preserves (fs : Fs) (h : Inv fs) (e : FsEvent) (hok : okEvent fs e 
     (∀ k, e = .commit k → (fs.step e).latest = some k) := by
   cases e with
   | mkTmp k =>
-    simp only [okEvent, Bool.and_eq_true, List.all_eq_true, decide_eq_true_eq, Bool.not_eq_true', List.contains_eq_mem] at hok
+    simp only [okEvent, List.all_eq_true, decide_eq_true_eq] at hok
     refine ⟨⟨h.asc, h.del, ?_⟩, fun l hl => ⟨l, hl, Nat.le_refl _⟩, fun k' hk' => by cases hk'⟩
     intro t ht
-    simp only [Fs.step, List.mem_append, List.mem_singleton] at ht
-    rcases ht with ht | rfl
+    have hcases : t ∈ fs.tmp ∨ t = k := by
+      simp only [Fs.step] at ht
+      split at ht
+      · left; exact ht
+      · simpa using ht
+    rcases hcases with ht | rfl
     · exact h.tmp t ht
-    · intro hc; have := hok.1 t hc; omega
+    · intro hc; have := hok t hc; omega
   | commit k =>
     simp only [okEvent, Bool.and_eq_true, List.all_eq_true, decide_eq_true_eq, List.contains_eq_mem] at hok
     have hlat : (fs.step (.commit k)).latest = some k := by simp [Fs.step, Fs.latest]
